@@ -531,6 +531,11 @@ def o_ecies(s, ctx, v, out):
     out.keys.add(('ecies', tuple(s.faults()), rc, min(len(s.msg), 70)))
     if rc == 'decode-failed':
         return
+    if 'pk' in changed and 'R' in changed and 'keyless-forgery' not in changed:
+        # whoever replaced the key the sender encrypts to can also adapt the ephemeral value (pk := 2 pk with
+        # R := 2 R gives both sides the same secret): a man in the middle on an unauthenticated key; nothing asserted
+        out.probe('key-and-ciphertext-both-substituted')
+        return
     if not changed:
         if rc != '0' or s.out.get('pt') != s.msg:
             v.bad('roundtrip', 'honest ciphertext: rc=%s plaintext %s (sent %s)' % (rc, s.out.get('pt', b'').hex()[:60], s.msg.hex()[:60]))
